@@ -322,7 +322,8 @@ def listing_order(R, ctx):
     if ok:
         r1 = p.op_roots(b.blocks[sorts[0]]['term']['args'][0])
         r2 = p.op_roots(b.blocks[revs[0]]['term']['args'][0])
-        coll = {x for x in r1 if x[0] in ('call', 'via') and 'collect' in x[1]}
+        # the vector built here: collected from the iterator chain, or Vec::new() filled by a loop
+        coll = {x for x in r1 if x[0] in ('call', 'via') and re.search(r'collect|Vec::<T>::new$|Vec::<T, A>::with_capacity$|Vec::<T>::with_capacity$', x[1])}
         same = bool(coll) and coll <= r2 and coll <= ret
     elif len(desc_cmp) == 1 and not sorts and not revs and re.search(r'::sort(_unstable)?_by$', callee_name(b.blocks[desc_cmp[0]]['term'])):
         # one sort with a descending comparator `|a, b| b.cmp(a)` (or `a.cmp(b).reverse()`) is the same order
@@ -341,7 +342,7 @@ def listing_order(R, ctx):
                     not T.fields_in(x[2][0]) and not T.fields_in(x[2][1])
                 ok = ok and good
             r1 = p.op_roots(b.blocks[desc_cmp[0]]['term']['args'][0])
-            coll = {x for x in r1 if x[0] in ('call', 'via') and 'collect' in x[1]}
+            coll = {x for x in r1 if x[0] in ('call', 'via') and re.search(r'collect|Vec::<T>::new$|Vec::<T, A>::with_capacity$|Vec::<T>::with_capacity$', x[1])}
             same = bool(coll) and coll <= ret
     R.check('R07.3', f"{b.path}|sort-reverse", ok and same, "collected listing is sorted ascending, then reversed, then returned (newest first)",
             "the listing is not `sort ascending -> reverse` on the returned vector (cleanup would count from the wrong end and delete the newest files)",
